@@ -208,6 +208,84 @@ fn input_e2e(dir: &std::path::Path, mode: &str, full_motion: bool, recs: &[[u8; 
     Some((sess_payload[0], rest))
 }
 
+/// The same with a daemon whose socket appears only `late_ms` after glonax-input was started (a boot-order race). Returns
+/// None if the set-up failed, Some(None) if glonax-input never registered a session (it may simply give up), otherwise the
+/// session flags and what was sent after the handshake.
+fn input_e2e_late(dir: &std::path::Path, mode: &str, recs: &[[u8; 8]], late_ms: u64, explicit_failsafe: bool) -> Option<Option<(u8, Vec<u8>)>> {
+    use std::os::unix::fs::OpenOptionsExt;
+    let sock = dir.join("late.sock");
+    let fifo = dir.join("js1");
+    let _ = std::fs::remove_file(&sock);
+    let _ = std::fs::remove_file(&fifo);
+    let conf = dir.join("glonax-late.conf");
+    std::fs::write(&conf, format!("[unix_listener]\npath = \"{}\"\n", sock.display())).ok()?;
+    let cfifo = std::ffi::CString::new(fifo.to_str()?).ok()?;
+    if unsafe { libc::mkfifo(cfifo.as_ptr(), 0o600) } != 0 {
+        return None;
+    }
+    let exe = format!("{}/glonax-input", bins_dir());
+    if !std::path::Path::new(&exe).exists() {
+        return None;
+    }
+    let mut cmd = std::process::Command::new(exe);
+    cmd.arg("-c").arg(&conf).arg("-s").arg(&sock).arg("-m").arg(mode).arg("--quiet");
+    if explicit_failsafe {
+        cmd.arg("-f");
+    }
+    cmd.arg(&fifo).stdout(std::process::Stdio::null()).stderr(std::process::Stdio::null());
+    // both ends of the FIFO held here: opening never blocks, whether or not glonax-input ever opens its end
+    let mut w = std::fs::OpenOptions::new().read(true).write(true).custom_flags(libc::O_NONBLOCK).open(&fifo).ok()?;
+    let mut child = cmd.spawn().ok()?;
+    std::thread::sleep(Duration::from_millis(late_ms));
+    let listener = UnixListener::bind(&sock).ok()?;
+    listener.set_nonblocking(true).ok()?;
+    let t = std::time::Instant::now();
+    let mut conn = None;
+    // up to 8 s, or until glonax-input has given up
+    while t.elapsed() < Duration::from_secs(8) {
+        if let Ok((s, _)) = listener.accept() {
+            conn = Some(s);
+            break;
+        }
+        if let Ok(Some(_)) = child.try_wait() {
+            // one last look: a connection made just before it exited
+            if let Ok((s, _)) = listener.accept() {
+                conn = Some(s);
+            }
+            break;
+        }
+        std::thread::sleep(Duration::from_millis(10));
+    }
+    let mut s = match conn {
+        Some(s) => s,
+        None => {
+            let _ = child.kill();
+            let _ = child.wait();
+            return Some(None);
+        }
+    };
+    s.set_nonblocking(false).ok()?;
+    s.set_read_timeout(Some(Duration::from_millis(1500))).ok()?;
+    let r = (|| {
+        let hdr = read_exact_timeout(&mut s, 10)?;
+        let len = ((hdr[5] as usize) << 8) | hdr[6] as usize;
+        let sess_payload = read_exact_timeout(&mut s, len)?;
+        let inst = glonax::core::Instance::new("d55bcd75-8d30-49af-ac18-ee7cbce7822f", "stub", glonax::core::MachineType::Excavator, (3, 5, 0), "S");
+        use glonax::protocol::Packetize;
+        s.write_all(&sess::frame(0x15, &inst.to_bytes())).ok()?;
+        let all: Vec<u8> = recs.iter().flat_map(|r| r.iter().copied()).collect();
+        w.write_all(&all).ok()?;
+        std::thread::sleep(Duration::from_millis(300));
+        Some(sess_payload[0])
+    })();
+    let _ = child.kill();
+    let _ = child.wait();
+    drop(w);
+    let mut rest = vec![];
+    let _ = s.read_to_end(&mut rest);
+    r.map(|flags| Some((flags, rest)))
+}
+
 pub fn run(out: &mut Out, tier: &str, rng: &mut Rng) {
     let thorough = tier == "thorough";
     out.rule = "st: every reachable interlock state (drive lock x motion lock x limit x engine rpm in {0,900..2100 step 100} = 112 states) x every scancode with boundary and random axis values (thorough: all 65536 values per axis on a state sample) through the real InputState::try_from; ev: raw js_event records (4 record types x every number 0..255 x boundary values incl. -32768) and random sequences of up to 500 records through the real Event::from -> map -> try_from pipeline in all four modes with/without full motion; cli: the real glonaxctl binary, every toggle sub-command x accepted words in mixed case x rejected words x compatible/incompatible stub daemon. Non-trivial = all".into();
@@ -430,6 +508,25 @@ pub fn run(out: &mut Out, tier: &str, rng: &mut Rng) {
                     out.case(&format!("e2e {} {} {}", mode, 0, recs.iter().map(|r| hex(r)).collect::<Vec<_>>().join(" ")), &format!("{} {}", flags, hex(&bytes)), true);
                 }
                 None => out.note("glonax-input end-to-end run could not be set up".into()),
+            }
+        }
+    }
+    // the daemon comes up AFTER glonax-input was started: whatever glonax-input does about that (give up, or wait and connect),
+    // a session it registers is a failsafe session
+    if !missing {
+        for (k, late_ms) in [(0usize, 300u64), (1, 1200)] {
+            let recs: Vec<[u8; 8]> = vec![record(1, 1, 1, 0), record(1, 1, 0, 1), record(2, 0, 10_000, 2)];
+            let mode = MODES[k % 4];
+            match input_e2e_late(&dir, mode, &recs, late_ms, k == 1) {
+                Some(Some((flags, bytes))) => {
+                    out.count("e2e glonax-input, daemon late: connected");
+                    out.case(&format!("e2e {} 0late {}", mode, recs.iter().map(|r| hex(r)).collect::<Vec<_>>().join(" ")), &format!("{} {}", flags, hex(&bytes)), true);
+                }
+                Some(None) => {
+                    out.count("e2e glonax-input, daemon late: gave up");
+                    out.case(&format!("e2e {} 0late {}", mode, recs.iter().map(|r| hex(r)).collect::<Vec<_>>().join(" ")), "NOCONN", true);
+                }
+                None => out.note("glonax-input end-to-end run (late daemon) could not be set up".into()),
             }
         }
     }
